@@ -9,6 +9,7 @@ import (
 	"runtime"
 	"strings"
 	"time"
+	"unicode/utf8"
 
 	"github.com/gobwas/ws"
 	"github.com/gobwas/ws/wsutil"
@@ -98,7 +99,17 @@ func (c *fakeConn) Close() error {
 		if !r.closed {
 			r.closed = true
 			r.serverClosed = true
-			r.log = append(r.log, traceEv{Kind: 'D'})
+			if len(r.wbuf) > 0 && !r.corrupt {
+				// the connection is dropped in the middle of a frame: the close frame went inside it
+				n := len(r.wbuf)
+				if n > 48 {
+					n = 48
+				}
+				r.corrupt = true
+				r.log = append(r.log, traceEv{Kind: 'B', Raw: fmt.Sprintf("%x", r.wbuf[:n])})
+			} else if !r.corrupt {
+				r.log = append(r.log, traceEv{Kind: 'D'})
+			}
 		}
 	})
 	return nil
@@ -173,6 +184,12 @@ func (r *rig) parseFramesLocked() {
 			if len(payload) >= 2 {
 				ev.Code = int(binary.BigEndian.Uint16([]byte(payload[:2])))
 				ev.Reason = payload[2:]
+			}
+			if len(payload) >= 2 && (ev.Code < 1000 || ev.Code > 4999 || !utf8.ValidString(ev.Reason)) {
+				// not a status code / reason: another frame's bytes sit where the close payload should be
+				r.corrupt = true
+				r.log = append(r.log, traceEv{Kind: 'B', Raw: fmt.Sprintf("88%02x%x", len(payload), truncate(payload, 40))})
+				return
 			}
 			r.log = append(r.log, ev)
 			// from here on no client message is handed to the server any more
